@@ -366,10 +366,11 @@ class Splicer:
             fc.used = True
             if fc.tags is not None:
                 tags = fc.tags
+        explicit = fc is not None and fc.tags is not None
         body_txt = data[r['body'][0]:r['body'][1]].decode() if r['body'] else ''
         self.g.panic_sites += len(re.findall(r'\b(assert!|assert_eq!|panic!|unreachable!|\.expect\(|\.unwrap\(\))', body_txt))
         info = dict(file=f, path=r['path'], contracted=fc is not None, external_body=False, external=False,
-                    tags=sorted(tags), line=data[:r['item'][0]].count(b'\n') + 1)
+                    tags=sorted(tags), explicit_tags=explicit, line=data[:r['item'][0]].count(b'\n') + 1)
         self.g.functions.append(info)
         if fc is None:
             if u.scope_listed:
@@ -606,7 +607,7 @@ class Splicer:
             raise ExtractError('lost anchor: contracted function(s) not found in the source: ' +
                                ', '.join('%s:%s' % k for k in unused))
         pieces = []
-        pieces.append(('ins', '#![allow(unused_imports, unused_variables, dead_code, unused_mut, unused_braces, unused_parens, non_snake_case)]\n', {'glue': 'head'}))
+        pieces.append(('ins', ''.join('#![feature(%s)]\n' % ft for ft in getattr(u, 'features', [])) + '#![allow(unused_imports, unused_variables, dead_code, unused_mut, unused_braces, unused_parens, non_snake_case)]\n', {'glue': 'head'}))
         for h in self.hoisted:
             pieces.append(('ins', h + '\n', {'glue': 'hoisted macro (R10)'}))
         pieces.append(('ins', 'use vstd::prelude::*;\n', {'glue': 'head'}))
